@@ -66,11 +66,18 @@ fn ord_name(o: Option<Ordering>) -> &'static str {
     }
 }
 
+/// window bases; the last one is replaced by u32::MAX - (window - 1) so that the top of the window is u32::MAX
 pub const BASES: [u64; 5] = [0, 0x7a, 0x10FFFA, 0x7FFF_FFFC, 0xFFFF_FFF9];
 
+fn bases(window: u64) -> [u64; 5] {
+    let mut b = BASES;
+    b[4] = 0xFFFF_FFFF - (window - 1);
+    b
+}
+
 #[allow(clippy::neg_cmp_op_on_partial_ord)]
-fn replay_cmp(doc: &Value, t: &mut Tally) {
-    for base in BASES.iter() {
+fn replay_cmp(doc: &Value, t: &mut Tally, window: u64) {
+    for base in bases(window).iter() {
         let x = entry(&doc["x"], *base);
         let cp = (doc["cp"].as_u64().unwrap() + base) as u32;
         let got = guarded(|| {
@@ -92,9 +99,9 @@ fn replay_cmp(doc: &Value, t: &mut Tally) {
     let hi = if doc["x"]["k"] == "S" { doc["x"]["c"].as_u64().unwrap() } else { doc["x"]["e"].as_u64().unwrap() };
     let mcp = doc["cp"].as_u64().unwrap();
     let far: Vec<(u64, u64)> = if mcp > hi {
-        vec![(0, 0xFFFF_FFF0), (0, 0x8000_0000), (0x7FFF_FFF0, 0xFFFF_FFF0), (0x10FFF0, 0x8011_0000)]
+        vec![(0, 0xFFFF_FFFF - (window - 1)), (0, 0x8000_0000), (0x7FFF_FFF0, 0xFFFF_FFF0), (0x10FFF0, 0x8011_0000)]
     } else if mcp < lo {
-        vec![(0xFFFF_FFF0, 0), (0x8000_0000, 0), (0xFFFF_FFF0, 0x7FFF_FFF0), (0x8011_0000, 0x10FFF0)]
+        vec![(0xFFFF_FFFF - (window - 1), 0), (0x8000_0000, 0), (0xFFFF_FFF0, 0x7FFF_FFF0), (0x8011_0000, 0x10FFF0)]
     } else {
         vec![]
     };
@@ -117,8 +124,8 @@ fn replay_cmp(doc: &Value, t: &mut Tally) {
     t.nontrivial += 1;
 }
 
-fn replay_search(doc: &Value, t: &mut Tally) {
-    for base in BASES.iter() {
+fn replay_search(doc: &Value, t: &mut Tally, window: u64) {
+    for base in bases(window).iter() {
         let tbl: Vec<Codepoints> = doc["tbl"].as_array().unwrap().iter().map(|e| entry(e, *base)).collect();
         let cp = (doc["cp"].as_u64().unwrap() + base) as u32;
         let got = guarded(|| match tbl.binary_search_by(|cps| cps.partial_cmp(&cp).unwrap()) {
@@ -238,6 +245,7 @@ pub fn main(args: &[String]) {
     let input = arg_value(args, "--in").unwrap_or_else(|| "-".to_string());
     let mut t = Tally { n: 0, executions: 0, mismatches: 0, nontrivial: 0, printed: 0, dev: 0, current: None };
     let ctx = crate::replay_str::Ctx::new(args);
+    let window = arg_u64(args, "--window", 7);
     for line in lines_of(&input) {
         if line.is_empty() {
             continue;
@@ -246,8 +254,8 @@ pub fn main(args: &[String]) {
         t.n += 1;
         t.current = Some(doc.clone());
         match doc["k"].as_str().unwrap_or("") {
-            "cmp" => replay_cmp(&doc, &mut t),
-            "search" => replay_search(&doc, &mut t),
+            "cmp" => replay_cmp(&doc, &mut t, window),
+            "search" => replay_search(&doc, &mut t, window),
             "stab" => replay_stab(&doc, &mut t),
             "gen" => crate::replay_gen::replay_gen(&doc, &mut t),
             "generr" => crate::replay_gen::replay_generr(&doc, &mut t),
